@@ -81,7 +81,7 @@ fn tokens_of(dict: Dictionary, sents: &[String], ign: bool) -> Option<(Vec<Strin
 }
 
 /// Builds a dictionary with a random history of API operations and returns its image.
-fn make_image(rng: &mut Rng) -> Option<(Vec<u8>, String, crate::gen::DictSrc, GenCfg)> {
+fn make_image(rng: &mut Rng) -> Option<(Vec<u8>, String, crate::gen::DictSrc, GenCfg, Option<Dictionary>)> {
     let mut cfg = GenCfg::default();
     cfg.kind = None;
     let mut drng = rng.fork();
@@ -114,26 +114,64 @@ fn make_image(rng: &mut Rng) -> Option<(Vec<u8>, String, crate::gen::DictSrc, Ge
     let mut v = vec![];
     let n = guarded(|| dict.write(&mut v).ok()).flatten()?;
     if n != v.len() {
-        return Some((v, format!("KIND={} USER={user} MAP={map} WRONGLEN=1", d.kind), d, cfg));
+        return Some((v, format!("KIND={} USER={user} MAP={map} WRONGLEN=1", d.kind), d, cfg, None));
     }
-    Some((v, format!("KIND={} USER={user} MAP={map}", d.kind), d, cfg))
+    Some((v, format!("KIND={} USER={user} MAP={map}", d.kind), d, cfg, Some(dict)))
+}
+
+/// A dictionary whose image exceeds the usual power-of-two size limits (64 MiB, 128 MiB):
+/// written, read back, compared on probe sentences.  The image itself is not printed.
+fn big_case(rng: &mut Rng, id: &str, out: &mut dyn Write) {
+    let n = *rng.pick(&[5900usize, 6000, 8300]);
+    let lex = format!("a,1,1,3,fa\nab,2,{},-2,fab\nb,{},7,1,fb\n", n - 1, n / 2);
+    let mut matrix = format!("{n} {n}\n");
+    for _ in 0..200 {
+        matrix.push_str(&format!("{} {} {}\n", rng.below(n), rng.below(n), rng.range(-50, 50)));
+    }
+    let chardef = "DEFAULT 0 1 0\n";
+    let unk = "DEFAULT,3,4,10,*\n";
+    let r = guarded(|| -> Result<(usize, bool), String> {
+        let d = vibrato::SystemDictionaryBuilder::from_readers(lex.as_bytes(), matrix.as_bytes(), chardef.as_bytes(), unk.as_bytes())
+            .map_err(|e| format!("build:{e}"))?;
+        let mut v = vec![];
+        let w = d.write(&mut v).map_err(|e| format!("write:{e}"))?;
+        if w != v.len() {
+            return Err("wrong-length-reported".into());
+        }
+        let d2 = Dictionary::read(&v[..]).map_err(|_| "err".to_string())?;
+        let sents: Vec<String> = vec!["abab".into(), "ba".into(), "xab".into()];
+        let (ta, _) = tokens_of(d, &sents, false).ok_or("tok")?;
+        let (tb, _) = tokens_of(d2, &sents, false).ok_or("tok")?;
+        Ok((v.len(), ta == tb))
+    });
+    match r {
+        None => writeln!(out, "imagebig {id} DIM {n} IMPL panic ## MODE=big").unwrap(),
+        Some(Err(e)) => writeln!(out, "imagebig {id} DIM {n} IMPL {} ## MODE=big", if e == "err" { "err".to_string() } else { format!("err({e})").replace(' ', "_") }).unwrap(),
+        Some(Ok((len, same))) => writeln!(out, "imagebig {id} DIM {n} IMPL ok ## MODE=big LEN={len} BEH={}", same as u8).unwrap(),
+    }
 }
 
 pub fn run(mode: &str, seed: u64, n: usize, out: &mut dyn Write) {
     let mut rng = Rng::new(seed ^ 0x696d67);
     let mut made = 0;
     while made < n {
-        let (v, flags, d, cfg) = match make_image(&mut rng) {
+        if mode == "big" {
+            big_case(&mut rng, &format!("{seed}.{made}"), out);
+            made += 1;
+            continue;
+        }
+        let (v, flags, d, cfg, original) = match make_image(&mut rng) {
             Some(x) => x,
             None => continue,
         };
         let id = format!("{seed}.{made}");
         match mode {
             // whole image: decode / re-encode, behaviour of the reloaded dictionary
-            "full" => {
+            "full" | "fullx" => {
                 let o = observe(&v);
                 let beh = (|| -> Option<bool> {
-                    let a = Dictionary::read(&v[..]).ok()?;
+                    // the original in-memory dictionary (as built and operated on) vs the reloaded one
+                    let a = original?;
                     let b = Dictionary::read(&v[..]).ok()?;
                     let mut srng = rng.fork();
                     let sents: Vec<String> = (0..4).map(|_| gen_sentence(&mut srng, &d, &cfg, 6)).collect();
